@@ -378,6 +378,20 @@ class Recorder(Oracle):
     def start(self, sim):
         self.raw = []
         self.min_liq = []
+        self.offered = {}  # op index in self.raw -> {"base": (amount offered, decimals), "quote": ...} of a deposit
+
+    def before_op(self, sim, o):
+        if o["op"] in ("uni.add_by_tick", "uni.add"):
+            m = sim.markets["uni0"]
+            off = {}
+            for side, tok in (("base", m.base_token), ("quote", m.quote_token)):
+                try:
+                    x = amount(sim, o.get("a", {}).get(side))
+                except Exception:
+                    x = None
+                if x is not None:
+                    off[side] = (x, int(tok.decimal))
+            self.offered[len(self.raw)] = off
 
     def after_op(self, sim, o, outcome):
         m = sim.markets["uni0"]
@@ -410,6 +424,7 @@ def compare(res, a, b, scenario):
         return
     tainted = False
     min_liq = None
+    gran = Fraction(0)  # resolution of the protocol's integer arithmetic met so far in this run (see _granularity)
     for i, ((oa, xa), (ob, xb)) in enumerate(zip(ra, rb)):
         name = oa["op"]
         where = oa.get("a", {}).get("where", "-")
@@ -427,7 +442,9 @@ def compare(res, a, b, scenario):
         na, ea = normalise(name, xa.get("result"), ta)
         nb, eb = normalise(name, xb.get("result"), tb)
         est = name in EST_OPS or name == "c09.estimate_liquidity"
-        tol = _tol(tainted or est, min_liq)
+        if name in ("uni.add_by_tick", "uni.add") and ea.get("pos"):
+            gran = max(gran, _granularity(a.oracle.offered.get(i), ea["pos"]), _granularity(b.oracle.offered.get(i), ea["pos"]))
+        tol = _tol(tainted or est, min_liq) + (0 if (tainted or est) else gran)
         if ea != eb:
             res.violate("c09.result_differs", f"{name}:{where}:exact", op_index=xa["i"], a=ea, b=eb, bar=oa["bar"])
             return
@@ -444,7 +461,7 @@ def compare(res, a, b, scenario):
         res.violate("c09.bar_count_differs", "run", a=len(sa), b=len(sb))
         return
     key = a.markets["uni0"].market_info
-    tol = _tol(tainted, min_liq)
+    tol = _tol(tainted, min_liq) + (0 if tainted else gran)
     fee_seen = False
     for i, (x, y) in enumerate(zip(sa, sb)):
         rows = {"net_value": (x.net_value, y.net_value)}
@@ -461,6 +478,25 @@ def compare(res, a, b, scenario):
                 return
     if fee_seen:
         res.count("probe:uncollected_in_both_worlds")
+
+
+def _granularity(offered, pos):
+    """Resolution of the pool's integer arithmetic for one deposit, as a relative bound on what the two orientations can
+    disagree by without any orientation slip: the offered amounts enter in whole atomic units (one unit of the smaller
+    offered amount: 1 / units), and LiquidityAmounts.getLiquidityForAmount0 floors the intermediate sqrtA * sqrtB / 2^96,
+    which for ticks far below zero has few digits (1 / intermediate). Which token is token0 - and therefore which amount
+    meets which of the two formulas - is exactly what the mirror swaps. Factor 2: each orientation rounds on its own."""
+    g = Fraction(0)
+    for side in ("base", "quote"):
+        x, dec = (offered or {}).get(side, (None, 0))
+        if x is not None and x == x and x > 0:
+            units = int(Fraction(x) * 10**dec)
+            if units > 0:
+                g += Fraction(2, units)
+    t = max(abs(int(pos[0])), abs(int(pos[1])))
+    inter = int(2**96 * math.exp(-t * math.log(1.0001)))  # sqrt ratios of both bounds taken at the extreme tick
+    g += Fraction(2, max(inter, 1))
+    return g
 
 
 def _tol(loose, min_liq):
@@ -491,7 +527,7 @@ ASSUMPTIONS = [
     "close ticks keep >= 2 ticks from the spacing midpoint so nearest-usable-tick rounding of the current price cannot flip by float noise; fee tiers 0.05/0.3/1 % (spacing 10/60/200)",
     "prices passed as arguments are mid-tick",
     "for add_by_value / estimate_* the current tick is >= 3 spacings inside the range or entirely outside",
-    "tolerance 1e-12 relative + 8/L for the integer rounding of the liquidity formulas (L = smallest live liquidity) + 1e-18 absolute (below one wei); 1e-3 for estimate-based helpers and for everything after an add_by_value in the same run (the property allows the helper 0.1 %)",
+    "tolerance 1e-12 relative + 8/L for the integer rounding of the liquidity formulas (L = smallest live liquidity) + the resolution of the protocol's integer arithmetic met so far in the run (2 / atomic units of each offered amount + 2 / floored intermediate sqrtA*sqrtB/2^96 at the range's extreme tick, DESIGN section 10.16) + 1e-18 absolute (below one wei); 1e-3 for estimate-based helpers and for everything after an add_by_value in the same run (the property allows the helper 0.1 %)",
     "pool liquidity kept positive",
 ]
 LEVEL_TEXT = (
